@@ -146,6 +146,53 @@ func vfC14(c *hx.Ctx) {
 		c.UnitBudget = 15 * time.Second
 		c.Explore(fmt.Sprintf("small-buffer-readers/stream=%v", stream), vfPairParams(cf, 1), 1, vfPairRun(cf, 1, body))
 	}
+	// out-of-band sends against Close of the same session, with the peer drawing from the same buffer pool: a buffer that two
+	// goroutines own at once is a race on its bytes whether or not this schedule lets both touch it, so the pool's ownership
+	// tracking is an oracle here next to ThreadSanitizer; tiny scenario, every single deviation
+	for _, who := range []string{"client", "server"} {
+		who := who
+		cf := vfPairCfg{DS: 2, PS: 1, SDS: -1, Stream: true, NoDelay: [4]int{1, 10, 2, 1}, Writes: []int{40}, ReadBuf: 4096, Pool: vrt.PoolEager, Preempt: 1, Switch: 1, Select: 1,
+			Owners: []string{"C14:"}, HorizonS: 20, UnlockPoints: true}
+		body := func(p *vfPair) {
+			var cw []byte
+			p.writer(p.client, 0, cf.Writes, &cw)
+			s, err := p.listener.AcceptKCP()
+			if err != nil {
+				return
+			}
+			p.mu.Lock()
+			p.server = s
+			p.mu.Unlock()
+			s.SetReadDeadline(vrt.Now().Add(50 * time.Millisecond))
+			s.Read(make([]byte, 64))
+			closing, other := p.client, s
+			if who == "server" {
+				closing, other = s, p.client
+			}
+			var wg vrt.WaitGroup
+			for i := 0; i < 2; i++ {
+				wg.Add(1)
+				vrt.Go(fmt.Sprintf("oob-%d", i), func() {
+					defer wg.Done()
+					closing.SendOOB(vfPayload(8, 30+i, i))
+				})
+			}
+			wg.Add(2)
+			vrt.Go("closer", func() { defer wg.Done(); closing.Close() })
+			vrt.Go("peer-oob", func() {
+				defer wg.Done()
+				for i := 0; i < 3; i++ {
+					other.SendOOB(vfPayload(9, 20+i, i))
+					vrt.Sleep(time.Millisecond)
+				}
+			})
+			wg.Wait()
+			vrt.Idle(30 * time.Millisecond)
+			p.teardown()
+		}
+		c.UnitBudget = 15 * time.Second
+		c.Explore("sendoob-against-close/closing="+who, vfPairParams(cf, 1), 1, vfPairRun(cf, 1, body))
+	}
 	bound := hx.Pick(c, 1, 2)
 	type class struct {
 		ciph   string
